@@ -43,31 +43,25 @@ func lexPatterns(root string) (rules []lexPat, named map[string]string) {
 		}
 		return f
 	}
-	// newLexicon: regex(token.X, "pattern") calls in source order
-	ast.Inspect(parse("parser/lexer/factory.go"), func(n ast.Node) bool {
-		fd, ok := n.(*ast.FuncDecl)
-		if !ok || fd.Name.Name != "newLexicon" {
+	// the literal rules: every regex(token.X, "pattern") call of parser/lexer/factory.go in source
+	// order (whatever function builds the lexicon: a rename or a split does not change the list)
+	ast.Inspect(parse("parser/lexer/factory.go"), func(m ast.Node) bool {
+		c, ok := m.(*ast.CallExpr)
+		if !ok {
 			return true
 		}
-		ast.Inspect(fd.Body, func(m ast.Node) bool {
-			c, ok := m.(*ast.CallExpr)
-			if !ok {
-				return true
+		if id, ok := c.Fun.(*ast.Ident); ok && id.Name == "regex" && len(c.Args) == 2 {
+			kind := "?"
+			if sel, ok := c.Args[0].(*ast.SelectorExpr); ok {
+				kind = sel.Sel.Name
 			}
-			if id, ok := c.Fun.(*ast.Ident); ok && id.Name == "regex" && len(c.Args) == 2 {
-				kind := "?"
-				if sel, ok := c.Args[0].(*ast.SelectorExpr); ok {
-					kind = sel.Sel.Name
-				}
-				if p, ok := stringLit(c.Args[1]); ok {
-					rules = append(rules, lexPat{kind, p})
-				} else {
-					rules = append(rules, lexPat{kind, "<not a string literal>"})
-				}
+			if p, ok := stringLit(c.Args[1]); ok {
+				rules = append(rules, lexPat{kind, p})
+			} else {
+				rules = append(rules, lexPat{kind, "<not a string literal>"})
 			}
-			return true
-		})
-		return false
+		}
+		return true
 	})
 	// package-level: name = regexp.MustCompile("…") and string constants
 	grab := func(rel string, names ...string) {
